@@ -6,6 +6,7 @@ import (
 	"io"
 
 	"github.com/karagenc/socket.io-go/engine.io/parser"
+	"github.com/karagenc/socket.io-go/engine.io/transport"
 )
 
 // Thin accessors for the C11 verification harness (no logic): the unexported WebTransport framer,
@@ -14,15 +15,26 @@ import (
 // VerifSend is send(w, packet), what ServerTransport.send / ClientTransport.send call on the stream.
 func VerifSend(w io.Writer, packet *parser.Packet) error { return send(w, packet) }
 
-// VerifServerReader is the read side of a ServerTransport: Handshake() sets
-// t.limitedReader = newLimitedReader(t.stream, t.readLimit) and nextPacket() is nextPacket(t.limitedReader).
-type VerifServerReader struct{ lr *limitedReader }
-
-func VerifNewServerReader(stream io.Reader, readLimit int64) *VerifServerReader {
-	return &VerifServerReader{lr: newLimitedReader(stream, readLimit)}
+// VerifServerReader is the read side of a ServerTransport: a transport that went through its real Handshake on
+// the harness stream (see zz_verif_c13.go), read with its own nextPacket() - whatever Handshake wires between
+// the stream and the framer (the limited reader) is the repository's code, not a copy of it.
+type VerifServerReader struct {
+	t   *ServerTransport
+	err error
 }
 
-func (v *VerifServerReader) NextPacket() (*parser.Packet, error) { return nextPacket(v.lr) }
+func VerifNewServerReader(stream io.Reader, readLimit int64) *VerifServerReader {
+	closed := false
+	t, err := verifHandshake(transport.NewCallbacks(), stream, readLimit, &closed)
+	return &VerifServerReader{t: t, err: err}
+}
+
+func (v *VerifServerReader) NextPacket() (*parser.Packet, error) {
+	if v.err != nil {
+		return nil, v.err
+	}
+	return v.t.nextPacket()
+}
 
 // VerifClientNextPacket is the read side of a ClientTransport: nextPacket(t.stream), no limit.
 func VerifClientNextPacket(stream io.Reader) (*parser.Packet, error) { return nextPacket(stream) }
